@@ -20,7 +20,7 @@ from liquid import (CachingChoiceLoader, CachingDictLoader, CachingFileSystemLoa
 from liquid.context import RenderContext
 from liquid.exceptions import LiquidError
 
-from vf.hx import drive, excluded, finish
+from vf.hx import cbool, cint, drive, excluded, finish, untraced
 
 PROPERTY = "C01"
 V = Union[None, bool, int, str]
@@ -321,12 +321,19 @@ def snap(thunk):
 def c01_loaders(kind: int, i: int, nskey: bool, ns: bool, g: Union[None, int], second: bool) -> bool:
     """
     pre: 0 <= kind <= 5 and 0 <= i <= 5
+    pre: g is None or 0 <= g <= 9
     post: _
     """
     # get_template vs get_template_async on two fresh, identically configured loaders; optionally a
     # second request of the other kind first (warm cache)
     if excluded("c01_loaders", locals()):
         return True
+    gc = None if g is None else cint(g, 0, 9)
+    args = (cint(kind, 0, 5), cint(i, 0, 5), cbool(nskey), cbool(ns), gc, cbool(second))
+    return finish(untraced(lambda: _loader_case(*args)))
+
+
+def _loader_case(kind, i, nskey, ns, g, second):
     saved = FS.asyncio
     FS.asyncio = _Asyncio()
     try:
@@ -341,7 +348,7 @@ def c01_loaders(kind: int, i: int, nskey: bool, ns: bool, g: Union[None, int], s
         b = snap(lambda: drive(e2.get_template_async(lname(i), globals=gl, **kw)))
     finally:
         FS.asyncio = saved
-    return finish(a == b)
+    return a == b
 
 
 CONDITIONS.append({"fn": "c01_loaders", "quick": 100, "thorough": 400, "sel_only": True})
